@@ -45,7 +45,7 @@ var alphaMD = []string{"\xff", "caf\xe9", "\xe4\xb8", "\x7f", "\t", "|", "\\", "
 // multi-line mixes of narrow and wide runs (a later line with fewer runes but more cells, etc.)
 var alphaTextLines = []string{"abc\n世界", "世界\nabcd", "é\n世", "ab\nｗｗ", "a\nbb\nccc", "世\n\nxy", "wide 世界 mix\nshort", "x\n世界界"}
 
-var alphaText = []string{"\x7f", "ab\x7f", "\x1b[1m", "a", "bc", " ", "世", "界", "é", "é", "​", "👨‍👩‍👧", "🇯🇵", "\n", "\n\n", "x", "ｗ", "\t", "0", "Ωmega", "­"}
+var alphaText = []string{"\xff", "\xff\xfe", "\xe2\x82x", "caf\xe9", "\x7f", "ab\x7f", "\x1b[1m", "a", "bc", " ", "世", "界", "é", "é", "​", "👨‍👩‍👧", "🇯🇵", "\n", "\n\n", "x", "ｗ", "\t", "0", "Ωmega", "­"}
 
 // D20 triggers (go-runewidth clusters a leading mark with the padding space); only in the dedicated stream
 var alphaD20 = []string{"ः", "\U0001F3FB", "ൎ", "؀"}
